@@ -62,7 +62,9 @@ fn format_number(
     debug_assert!(parts.len() <= 2);
     // Manipulate fractional part based on configuration.
     match scale {
-        Some(0) => parts.truncate(1),
+        // no fractional digits; a negative scale is treated like zero (cast to usize below it
+        // would ask for about 2^64 padding zeros)
+        Some(i) if i <= 0 => parts.truncate(1),
         Some(i) => {
             // TODO consider removal options
             #[allow(clippy::cast_sign_loss, clippy::cast_possible_truncation)]
